@@ -216,6 +216,7 @@ func genFidTable(c *Ctx, prop string, kinds []string, n int) {
 			}
 		}
 		waitc(s.closeEnd, 5*time.Second)
+		s.waitExited(5 * time.Second)
 		if m, ok := waitCensus(map[string]int{}, 5*time.Second); !ok {
 			c.oracleFail("C11/goroutines/fid-table/"+kind, "goroutines left after the disconnect: "+showCensus(m), line)
 		}
